@@ -615,7 +615,7 @@ func (g *Gen) specCall(env *Env, e *Expr) *Val {
 			return nil
 		}
 		return scalar("Int", a.S[0], nil)
-	case "heapFp", "heapFr":
+	case "heapFp", "heapFr", "heapInt":
 		// the whole point / scalar heap of the state the expression is evaluated in (for spec functions that follow pointers)
 		srt := strings.TrimPrefix(fn, "heap")
 		h, ok := env.heap[srt]
